@@ -57,6 +57,8 @@ def run(names, repo, workdir, tier="quick"):
         if m and p.returncode == 0 and int(m.group(1)) > 0:
             ob["status"] = "discharged"
             ob["cases"] = int(m.group(1))
+            ob["rejected"] = int(m.group(2))
+            ob["samples"] = [{"harness": n, "choice_vector": x} for x in re.findall(r"ENUM-SAMPLE harness=\w+ choice_vector=(\[.*?\])", p.stdout)][:3]
             ob["bound"] += "; %s combinations executed on the real code (exhausted=%s%s)" % (m.group(1), m.group(3), "; wide value domains" if tier == "thorough" else "")
         elif f:
             ob["status"] = "failed"
